@@ -262,7 +262,7 @@ column `j` reads as the `toD` rendering of the logical value the documented mapp
 (`cols` as in `C06_closure_decode`: `interpRow ext fields xs[i]` is the struct of the `i`-th column entries).
 EVERY tracing option, NO reader-side hypothesis: `Read.new … = ok`, `utf8Ok` and `Read.physical` of `read_any_decode` are
 derived for the built arrays (`Props.C03.toMarrow_readAny_of_physical`: `wf_new` with `fromSamples_readable`, `wf_utf8`, from
-`C03_wf'`; `C06_closure_physical`).  Remaining hypotheses, all on the input side: `hok` (samples are serde values), `hext` (`ExtOK`:
+`C03_wfS'`; `C06_closure_physical`).  Remaining hypotheses, all on the input side: `hok` (samples are serde values), `hext` (`ExtOK`:
 the external chrono parsers return values in range; a theorem for the codec models, `Props.C03.codecExt_ok`), `hval` (`SValOK`: f32 /
 f64 / integer calls carry values of their width; implied by `SVal.typed`), `hsz` (at most `i64::MAX` samples — the former
 array-side hypothesis `hphys : Read.physical` is gone). -/
